@@ -14,6 +14,8 @@ import (
 	"os"
 	"path/filepath"
 	"reflect"
+	"runtime/debug"
+	"runtime/pprof"
 	"sort"
 	"strings"
 	"time"
@@ -140,6 +142,7 @@ func main() {
 		childMain(os.Args[2])
 		return
 	}
+	debug.SetGCPercent(800) // the generators build files by repeated string concatenation: garbage-heavy, tiny live heap
 	run := vlib.Start("C11", "exploration")
 	initStatic()
 	loadSimFaithful()
@@ -198,6 +201,14 @@ func main() {
 		return
 	}
 
+	if pf := os.Getenv("C11_CPUPROFILE"); pf != "" {
+		if f, err := os.Create(pf); err == nil {
+			pprof.StartCPUProfile(f)
+			defer pprof.StopCPUProfile()
+			fin := finish
+			finish = func() { pprof.StopCPUProfile(); f.Close(); fin() }
+		}
+	}
 	start := time.Now()
 	budget := 100 * time.Second
 	if run.Thorough() {
@@ -243,50 +254,64 @@ func main() {
 	prefetchSeconds := time.Since(start).Seconds()
 	skipped := 0
 	classTime := map[string]float64{}
-	for i, cs := range cases {
-		t0 := time.Now()
-		if time.Since(start) > budget {
-			exhaustive = false
-			skipped = len(cases) - i
-			break
-		}
-		cr := runCase(cs)
-		classTime[cs.Class] += time.Since(t0).Seconds()
-		perClass[cs.Class]++
-		if cr.BuildErr != "" {
-			notBuilt = append(notBuilt, cs.Class+": "+cs.Name+": "+cr.BuildErr)
-			continue
-		}
-		evals += cr.Out.Evals
-		if cs.Child != "" {
-			childLoads++
-		}
-		if cs.Class == "shared-ctor" {
-			soAccepted++
-		}
-		if cr.Out.Rendered {
-			rendered++
-		}
-		if cr.Out.LoudRefusal {
-			loudRefusals++
-		}
-		if cr.Out.Simulated {
-			simulated++
-		}
-		if cr.Out.RenderPanic != "" {
-			renderPanics[cs.Class]++
-			if len(renderPanicSamples) < 12 {
-				renderPanicSamples = append(renderPanicSamples, cs.Name+": "+tail(cr.Out.RenderPanic, 160))
-			}
-		}
-		if len(cr.Out.Fails) == 0 && len(cr.Single) == 0 && cr.Out.Nontrivial && cr.Out.Rendered {
-			okKeys[cr.Out.Key] = true
-		}
-		report(cr, nil)
-		if i%40 == 0 && len(okKeys) > 0 {
-			run.Sample(map[string]any{"class": cs.Class, "case": cs.Name, "saved_bytes": cr.Out.SavedBytes, "rendered": cr.Out.Rendered, "simulated": cr.Out.Simulated, "failures": len(cr.Out.Fails) + len(cr.Single)})
+	// order of work: the structurally rich classes and the field sweep first, the bulk opcode product
+	// last, so that a deadline on an overloaded machine truncates the most repetitive part
+	var core, bulk []CaseSpec
+	for _, cs := range cases {
+		if cs.Class == "opcode" || cs.Class == "shape" {
+			bulk = append(bulk, cs)
+		} else {
+			core = append(core, cs)
 		}
 	}
+	runList := func(list []CaseSpec) {
+		for i, cs := range list {
+			t0 := time.Now()
+			if time.Since(start) > budget {
+				exhaustive = false
+				skipped += len(list) - i
+				break
+			}
+			cr := runCase(cs)
+			classTime[cs.Class] += time.Since(t0).Seconds()
+			perClass[cs.Class]++
+			if cr.BuildErr != "" {
+				notBuilt = append(notBuilt, cs.Class+": "+cs.Name+": "+cr.BuildErr)
+				continue
+			}
+			evals += cr.Out.Evals
+			if cs.Child != "" {
+				childLoads++
+			}
+			if cs.Class == "shared-ctor" {
+				soAccepted++
+			}
+			if cr.Out.Rendered {
+				rendered++
+			}
+			if cr.Out.LoudRefusal {
+				loudRefusals++
+			}
+			if cr.Out.Simulated {
+				simulated++
+			}
+			if cr.Out.RenderPanic != "" {
+				renderPanics[cs.Class]++
+				if len(renderPanicSamples) < 12 {
+					renderPanicSamples = append(renderPanicSamples, cs.Name+": "+tail(cr.Out.RenderPanic, 160))
+				}
+			}
+			if len(cr.Out.Fails) == 0 && len(cr.Single) == 0 && cr.Out.Nontrivial && cr.Out.Rendered {
+				okKeys[cr.Out.Key] = true
+			}
+			report(cr, nil)
+			if i%40 == 0 && len(okKeys) > 0 {
+				run.Sample(map[string]any{"class": cs.Class, "case": cs.Name, "saved_bytes": cr.Out.SavedBytes, "rendered": cr.Out.Rendered, "simulated": cr.Out.Simulated, "failures": len(cr.Out.Fails) + len(cr.Single)})
+			}
+		}
+	}
+
+	runList(core)
 
 	// (c) field completeness by reflection
 	base := baseForFields()
@@ -327,6 +352,8 @@ func main() {
 			report(cr, extra)
 		}
 	}
+
+	runList(bulk)
 
 	var lost, checked []string
 	for f := range fieldsLost {
